@@ -654,6 +654,37 @@ func c09Signatures(rt *rapid.T) *c09Case {
 	return cs
 }
 
+// c09Precedence: an earlier change puts an expression where the printer has
+// to add parentheses around it (a sum as the operand of a product, of a
+// selector, of a call, of a unary operator), and a later change is written
+// against the text of the intermediate file, parentheses included.
+func c09Precedence(rt *rapid.T) *c09Case {
+	cs := &c09Case{Family: "synthetic-precedence"}
+	type shape struct{ file, first, second string }
+	shapes := []shape{
+		{"return a * x", "@@\n@@\n-x\n+b + c\n", "@@\n@@\n-a * (b + c)\n+ok\n"},
+		{"return a * wrap(b + c)", "@@\nvar v expression\n@@\n-wrap(v)\n+v\n", "@@\n@@\n-a * (b + c)\n+ok\n"},
+		{"return wrap(b+c) * a", "@@\nvar v expression\n@@\n-wrap(v)\n+v\n", "@@\nvar y expression\n@@\n-(y) * a\n+twice(y)\n"},
+		{"return a - wrap(b - c)", "@@\nvar v expression\n@@\n-wrap(v)\n+v\n", "@@\n@@\n-a - (b - c)\n+ok\n"},
+		{"return wrap(p).field", "@@\nvar v expression\n@@\n-wrap(v)\n+*v\n", "@@\n@@\n-(*p).field\n+p.field\n"},
+		{"return wrap(b + c).String()", "@@\nvar v expression\n@@\n-wrap(v)\n+v\n", "@@\n@@\n-(b + c).String()\n+str(b + c)\n"},
+		{"return -wrap(b + c)", "@@\nvar v expression\n@@\n-wrap(v)\n+v\n", "@@\n@@\n--(b + c)\n+neg(b, c)\n"},
+		{"return wrap(fs)[0](1)", "@@\nvar v expression\n@@\n-wrap(v)\n+*v\n", "@@\n@@\n-(*fs)[0]\n+first(fs)\n"},
+		{"return eq(wrap(a+b), (a+b)*2)", "@@\nvar v expression\n@@\n-wrap(v)\n+v * 2\n", "@@\nvar y expression\n@@\n-eq(y, y)\n+same(y)\n"},
+		{"return a * x", "@@\n@@\n-x\n+b * c\n", "@@\n@@\n-a * b * c\n+ok\n"},
+		// what an elision leaves of a list of type arguments: one
+		{"return foo[int, string](1)", "@@\n@@\n-foo[int, ..., string]\n+bar[..., string]\n", "@@\n@@\n-bar[string]\n+baz\n"},
+		{"return foo[int, string, bool](1)", "@@\n@@\n-foo[int, ...]\n+bar[...]\n", "@@\n@@\n-bar[string, bool]\n+baz\n"},
+	}
+	sh := shapes[rapid.IntRange(0, len(shapes)-1).Draw(rt, "shape")]
+	cs.File = "package p\n\nfunc f(a, x, b, c int, p *T, fs *[]func(int) int) any {\n\tprepare()\n\t" + sh.file + "\n}\n"
+	cs.Changes = []string{sh.first, sh.second}
+	if rapid.Bool().Draw(rt, "third") {
+		cs.Changes = append(cs.Changes, "@@\n@@\n-prepare()\n+prepared()\n")
+	}
+	return cs
+}
+
 var c09Opts = modelOpts{
 	Mine:         gen.MineOpts{MaxHoles: 2, MaxDots: 1},
 	MaxHostLines: 150,
@@ -715,15 +746,17 @@ func TestC09(t *testing.T) {
 				cs = c09Focused(rt)
 			} else if k == 2 {
 				cs = c09Emptied(rt)
-				switch rapid.IntRange(0, 7).Draw(rt, "otherSynthetic") {
+				switch rapid.IntRange(0, 6).Draw(rt, "otherSynthetic") {
 				case 0:
 					cs = c09Unprintable(rt)
 				case 1, 2:
 					cs = c09Shadow(rt)
 				case 3, 4:
 					cs = c09GeneratedDecls(rt)
-				case 5, 6:
+				case 5:
 					cs = c09Signatures(rt)
+				case 6:
+					cs = c09Precedence(rt)
 				}
 			} else {
 				cs = c09Synthetic(rt)
